@@ -7,6 +7,7 @@ CTX = "xsdata.formats.dataclass.context:XmlContext"
 
 def register(db):
     collab.declare(db)
+    register_choices(db)
     P = ["C14"]
     # ------------------------------------------------------------------ memoised wildcard matching
     M = "uf('match_ns', 'bool', self.namespaces, {q})"
@@ -37,7 +38,7 @@ def register(db):
         params={"self": xml_var(None), "qname": "str"},
         requires=["len(qname) > 0"],
         ensures=[("function-of-arguments", f"result == {M.format(q='qname')}"), ("memo-consistent", INV)],
-        raises={}, properties=P,
+        raises={}, modifies=["self.namespace_matches"], properties=P,
     ))
     db.add(Contract(
         f"{EL}:XmlVar.match_namespace", variant="warm",
@@ -86,4 +87,30 @@ def register(db):
                  ("function-of-arguments: declared class", f"implies(not {SUBST}, result == {B.format(c='clazz')})")],
         raises={"XmlContextError": True, "NameError": True, "TypeError": True},
         properties=P,
+    ))
+
+
+def register_choices(db):
+    """XmlVar.find_primitive_choice: the answer is one of the declared, compatible choices of this field
+    (so nothing remembered from earlier calls can be returned)."""
+    assume_method(db, "ElementsMap", "values", returns="seq[u:XmlVar]", pure=True)
+    db.add(Contract("xsdata.formats.converter:ConverterFactory.test", trusted=True, params={}, returns="bool", raises={},
+                    call_ensures=["result == uf('converter.test', 'bool', value, types)"],
+                    note="assumed: the lexical test is a function of (value, candidate types)"))
+    collab.field(db, "Any", "__getitem__", "u:Any")
+
+    def xml_var(mk, base):
+        return mk.obj(f"{EL}:XmlVar", {"elements": "opaque:ElementsMap"})
+
+    ELEMS = "uf('ElementsMap.values', 'seq[u:XmlVar]', self.elements)"
+    db.add(Contract(
+        f"{EL}:XmlVar.find_primitive_choice",
+        params={"self": xml_var, "value": "opaque:Any", "is_tokens": "bool"},
+        ensures=[("answer-is-a-declared-compatible-choice",
+                  f"implies(result is not None, exists('int', lambda j: 0 <= j and j < len({ELEMS}) and result == {ELEMS}[j] "
+                  f"and not {ELEMS}[j].any_type and {ELEMS}[j].clazz is None and {ELEMS}[j].tokens == is_tokens))")],
+        raises={"KeyError": True, "IndexError": True, "TypeError": True},
+        loops=[Loop(invariants=[], header="self.elements.values()")],
+        properties=["C14", "C04"],
+        note="IndexError/KeyError/TypeError: artefacts of the abstract value (value[0] of a token list)",
     ))
